@@ -48,11 +48,11 @@ package ringbuffer
 //@   atunlock[C14.push.last] viewat(rb, old(rb.len)) == item
 //@   atunlock[C14.push.prefix] forall(k, 0 <= k && k < old(rb.len) ==> viewat(rb, k) == old(viewat(rb, k)))
 //@   loop 1
-//@     invariant[C14.push.copy.range] 0 <= i && i <= rb.content.mod
+//@     invariant[C14.push.copy.range] 0 <= idx && idx <= rb.content.mod
 //@     invariant[C14.push.copy.len] len(newBuff) == 2 * rb.content.mod && fresh(newBuff) && newBuff.off == 0
-//@     invariant[C14.push.copy.elems] forall(j, 0 <= j && j < i ==> newBuff[j] == rb.content.items[gomod(rb.content.tail + j, rb.content.mod)])
+//@     invariant[C14.push.copy.elems] forall(j, 0 <= j && j < idx ==> newBuff[j] == rb.content.items[gomod(rb.content.tail + j, rb.content.mod)])
 //@     modifies elements(newBuff)
-//@     decreases rb.content.mod - i
+//@     decreases rb.content.mod - idx
 
 //@ func (rb *RingBuffer).Len()
 //@   props C14 C03
@@ -82,11 +82,11 @@ package ringbuffer
 //@   ensures[C14.popn.rest] old(rb.len) > 0 ==> forall(k, 0 <= k && k < rb.len ==> viewat(rb, k) == old(viewat(rb, k + len(items))))
 //@   ensures[C14.popn.fresh] old(rb.len) > 0 ==> fresh(items)
 //@   loop 1
-//@     invariant[C14.popn.loop.range] 0 <= i && i <= n && n <= old(rb.len) && len(items) == n && items.off == 0 && fresh(items)
+//@     invariant[C14.popn.loop.range] 0 <= idx && idx <= n && n <= old(rb.len) && len(items) == n && items.off == 0 && fresh(items)
 //@     invariant[C14.popn.loop.frame] content == old(rb.content) && rb.content == content && content.head == old(rb.content.head) &&
 //@        content.mod == old(rb.content.mod) && content.tail == old(rb.content.tail) && content.items == old(rb.content.items) &&
 //@        rb.len == old(rb.len) - n
-//@     invariant[C14.popn.loop.taken] forall(k, 0 <= k && k < i ==> items[k] == old(viewat(rb, k)))
-//@     invariant[C14.popn.loop.kept] forall(k, i <= k && k < old(rb.len) ==> slot(content, k) == old(viewat(rb, k)), ridx(content.head, k, content.mod))
+//@     invariant[C14.popn.loop.taken] forall(k, 0 <= k && k < idx ==> items[k] == old(viewat(rb, k)))
+//@     invariant[C14.popn.loop.kept] forall(k, idx <= k && k < old(rb.len) ==> slot(content, k) == old(viewat(rb, k)), ridx(content.head, k, content.mod))
 //@     modifies elements(items), elements(content.items)
-//@     decreases n - i
+//@     decreases n - idx
